@@ -32,7 +32,7 @@ META = {
         "technique": "Lean 4 proof of the regenerated selection logic (bit arithmetic, case analysis); differential run with time texts as atoms",
     },
     "C03": {
-        "text": "Proof: routing regenerated from dualWriter.Get/Entry.findWriter equals the documented routing for all severities, registries and configurations; the eleven configuring calls refine their documented meaning on the three lists for every call sequence on fresh and configured loggers (induction); writers outside the selected list get nothing and each selected one exactly one write; a LevelSettable destination is told the record's severity before its write. Tied by the translator and by random operation histories over six writer kinds.",
+        "text": "Proof: routing regenerated from dualWriter.Get/Entry.findWriter equals the documented routing for all severities, registries and configurations; the eleven configuring calls refine their documented meaning on the three lists for every call sequence on fresh and configured loggers (induction); writers outside the selected list get nothing and each selected one exactly one write; a LevelSettable destination is told the record's severity before its write; printOut has no way out before the Write and the list is walked to its end (regenerated). Tied by the translator and by random operation histories over six writer kinds.",
         "design_ref": "DESIGN.md §7 C03",
         "note": "Trusted: Lean kernel; extractor; Go interface identity of writers (the six harness kinds); os.Stdout/os.Stderr captured at newDualWriter time.",
         "technique": "Lean 4 refinement proof (case analysis + induction over operation sequences) on regenerated routing; differential random histories",
@@ -74,7 +74,7 @@ META = {
         "technique": "Lean 4 proof quantified over permutations (List.Perm) of the mapping table; differential run with permutation-set acceptance",
     },
     "C04": {
-        "text": "Proof over a byte-exact encoder model (tied by byte-for-byte correspondence on generated records): whatever bytes the message, the logger name, the keys and the string-like values contain, what the JSON escaper puts between quotes is a well-formed JSON string body (proved for all byte strings) that decodes back to the logged string (all valid UTF-8 strings); the whole record is one line; and the object reads back: a member reader finds exactly one member per logged field in the order written, each under its escaped key with the encoder's value text, groups again objects of exactly their members at any depth (theorems json_record_reads_back, json_group_reads_back; mutual induction over values and groups). That Go's decoder agrees with the reader model, and the numeric/time value texts, are checked by the encoding/json oracle and Q jmem probes on every run.",
+        "text": "Proof over a byte-exact encoder model (tied by byte-for-byte correspondence on generated records): whatever bytes the message, the logger name, the keys and the string-like values contain, what the JSON escaper puts between quotes is a well-formed JSON string body (proved for all byte strings) that decodes back to the logged string (all valid UTF-8 strings), the escaper of the model being that of the code (safeSet, the special code points and the literal pieces are regenerated and compared); the whole record is one line; and the object reads back: a member reader finds exactly one member per logged field in the order written, each under its escaped key with the encoder's value text, groups again objects of exactly their members at any depth (theorems json_record_reads_back, json_group_reads_back; mutual induction over values and groups). That Go's decoder agrees with the reader model, and the numeric/time value texts, are checked by the encoding/json oracle and Q jmem probes on every run.",
         "design_ref": "DESIGN.md §7 C04",
         "note": "Trusted: Lean kernel; strconv.IsPrint table; atoms from strconv/time/fmt (hypothesis: no quote or backslash in the ones written raw between quotes); the member reader model (compared with encoding/json on every produced line); encoding/json as oracle for value decoding.",
         "technique": "Lean 4 proofs on escapers (safety and round trip) and by mutual induction over the value/attribute encoders (one line; object members read back); byte-exact differential run; JSON decoder oracle and reader-model probes",
@@ -92,7 +92,7 @@ META = {
         "technique": "Lean 4 proofs on the colored encoder model; byte-exact differential run; SGR tracker oracle",
     },
     "C09": {
-        "text": "Proof: the encoder model is a pure function of the call, and the regenerated structure of PrintCtx shows every field reset by set/setentry, written before it is read, restored after use or constant (decide over the regenerated field list - a new unreset field breaks it); the pool bracket is regenerated. The tie to the recycled-buffer implementation is the byte-exact correspondence of probes replayed after different histories and after adversarially seeded pool contents, which must equal each other and the model.",
+        "text": "Proof: the encoder model is a pure function of the call, and the regenerated structure of PrintCtx shows every field reset by set/setentry, written before it is read, restored after use or constant (decide over the regenerated field list - a new unreset field breaks it; only assignments on every path count as a reset, and the constant fields are assigned nowhere in the package); the pool bracket is regenerated. The tie to the recycled-buffer implementation is the byte-exact correspondence of probes replayed after different histories and after adversarially seeded pool contents, which must equal each other and the model.",
         "design_ref": "DESIGN.md §7 C09",
         "note": "Trusted: Lean kernel; extractor; the field classification for non-reset fields (validated by pool seeding); sync.Pool behaviour.",
         "technique": "Lean 4 (pure-function model + decide over regenerated struct facts); differential replay of probes after varied histories",
@@ -104,7 +104,7 @@ META = {
         "technique": "Lean 4 (state-machine induction, encoder lemmas, regenerated decisions) + differential replay of call sequences",
     },
     "C15": {
-        "text": "Proof: content preservation of the attribute conversion by mutual structural induction over log/slog values (groups nested, LogValuers resolved at every depth); level conversions decided on the regenerated tables for all integers; Enabled equals the regenerated gate on the namesake severity; a handled record / an admitted bridge message is one LF-terminated payload once per selected destination; the bridge strips exactly one line feed. The part of the statement about derived handlers is false of the code: proved by a witness and reported as KNOWN-FINDING C15-derived-detached. Tied to the code by the translator and a byte-exact correspondence with JSON-decoding oracles.",
+        "text": "Proof: content preservation of the attribute conversion by mutual structural induction over log/slog values (groups nested, LogValuers resolved at every depth), the conversion of the model taking for every value the case of the code's regenerated kind switch (ten cases, no condition, no depth argument) and Handle handing the record's own time, message and converted attributes on with one way out; level conversions decided on the regenerated tables for all integers; Enabled equals the regenerated gate on the namesake severity; a handled record / an admitted bridge message is one LF-terminated payload once per selected destination; the bridge strips exactly one line feed. The part of the statement about derived handlers is false of the code: proved by a witness and reported as KNOWN-FINDING C15-derived-detached. Tied to the code by the translator and a byte-exact correspondence with JSON-decoding oracles.",
         "design_ref": "DESIGN.md §7 C15",
         "note": "Trusted: Lean kernel; extractor; the harness's mapping of log/slog values to the model's SVal; log/slog and log package behaviour.",
         "technique": "Lean 4 (mutual structural induction, decide on regenerated tables) + differential replay through log/slog and log",
